@@ -706,6 +706,30 @@ func runC12(r *mon.Run) {
 		transCase(t, "value", "exp", c, x, dec.D{})
 		t.Count("exp-long-argument")
 	})
+	r.Parallel("high-precision", r.N(240, 12000), func(t *mon.T) {
+		// several hundred to 1200 digits: float64 estimates inside the
+		// implementation (of the argument, of 10^-p) run out of range there
+		rr := t.Rng
+		c := dec.Ctx{P: rr.Range(300, 1200), Emin: -100000, Emax: 100000, Mode: gen.Mode(rr)}
+		switch rr.Intn(5) {
+		case 0: // tiny arguments: exp(x) = 1 + x + ... with |x| between 10^-(P+2) and 10^-300
+			x := dec.D{Form: dec.Finite, Neg: rr.Bool(), C: big.NewInt(rr.Range(1, 99999)), E: -rr.Range(300, c.P+4)}
+			transCase(t, "value", "exp", c, x, dec.D{})
+		case 1:
+			x := gen.WithAdj(rr.Bool(), big.NewInt(rr.Range(1, 999999)), rr.Range(-8, 2))
+			transCase(t, "value", "exp", c, x, dec.D{})
+		case 2:
+			transCase(t, "value", "ln", c, dec.D{Form: dec.Finite, C: big.NewInt(rr.Range(2, 99999)), E: rr.Range(-6, 3)}, dec.D{})
+		case 3:
+			transCase(t, "value", "log10", c, dec.D{Form: dec.Finite, C: big.NewInt(rr.Range(2, 99999)), E: rr.Range(-6, 3)}, dec.D{})
+		default:
+			x := dec.D{Form: dec.Finite, C: big.NewInt(rr.Range(2, 999)), E: rr.Range(-3, 0)}
+			y := dec.D{Form: dec.Finite, Neg: rr.Bool(), C: big.NewInt(rr.Range(1, 999)), E: -rr.Range(1, 3)}
+			transCase(t, "value", "pow", c, x, y)
+		}
+		t.Count("high-precision")
+	})
+	r.Require("high-precision", 200)
 	r.Parallel("exp-large", r.N(300, 20000), func(t *mon.T) {
 		// the early-overflow zone: |x| between 23000 and the true threshold
 		c := dec.Ctx{P: int64(1 + t.Rng.Intn(20)), Emin: -100000, Emax: 100000, Mode: gen.Mode(t.Rng)}
